@@ -244,8 +244,19 @@ def run_twin(case, compare_sections=('params', 'rg', 'flags', 'grads'), probe_fo
                  'probe-' + '.'.join(path.strip('/').split('/')[:2 if path.startswith('/export') else 1]),
                  f'{path}: reference={a_s} subject={b_s}', last_fault or 'none')
         elif double_export:
-            e1 = W.guarded(lambda: W.module_signature(S.model.export()))
-            e2 = W.guarded(lambda: W.module_signature(S.model.export()))
+            xp, _ = W.data_for(cfg, run_seed, 10 ** 6)
+
+            def export_view():
+                e = S.model.export()
+                v = {'struct': W.module_signature(e),
+                     'state': {k2: W.tdigest(v2) for k2, v2 in e.state_dict().items()}}
+                e.eval()
+                with torch.no_grad():
+                    v['out'] = W.guarded(lambda: W.tensor_list(e(xp)))
+                return v
+            S.model.eval()
+            e1 = W.guarded(export_view)
+            e2 = W.guarded(export_view)
             bump('double_exports')
             d = W.diff(W.norm(e1), W.norm(e2))
             if d:
